@@ -4,6 +4,7 @@
 -/
 import Tranp.Lemmas.SymbolJson
 import Tranp.Generated.SymbolTables
+import Tranp.Generated.SymbolDbState
 
 namespace Tranp.C14
 open Tranp Tranp.SymbolJson
@@ -538,6 +539,63 @@ theorem shipped_rt (M : Str) (hM : M ∈ modules) (b : Table) (d : List (Str × 
 open Tranp.Generated.SymbolTables in
 /-- non-vacuity: the generated table is not empty and every listed module exports at least one row -/
 example : modules ≠ [] ∧ ∀ M ∈ modules, (match toJson world table (some M) with | .ok d => !d.isEmpty | .error _ => false) = true := by
+  decide +kernel
+
+
+/-! ### the export depends on the current table only (no memo, no history) -/
+
+/-- `to_json` is a function of the entries of the table: two tables with the same entries export the same rows, whatever their
+    completed marks — and, the model having no other component, whatever happened before (earlier exports, imports, unloads that
+    led to the same entries). That the CODE has no other component is `state_is_modelled` below. -/
+theorem export_history_independent (W : World) (t t' : Table) (h : t.items = t'.items) (fm : Option Str) :
+    toJson W t fm = toJson W t' fm :=
+  toJson_items W t t' h fm
+
+/-- non-vacuity / use: after exporting, completing and unloading another module the export of `m` is what it was -/
+example : toJson Ex.W2 Ex.withImport (some Ex.M) = toJson Ex.W2 ((Ex.withImport.onComplete ['n']).onComplete Ex.M) (some Ex.M) :=
+  export_history_independent _ _ _ (by simp [onComplete_items]) _
+
+open Tranp.Generated.SymbolDbState in
+/-- **The state of the code is the state of the model** (generated from the AST of db.py / serializer.py on every run by
+    translate/gen_symbol_state.py, which fails on attribute assignments outside `__init__`, module / class variables, `global`,
+    mutable defaults and caching decorators): `SymbolDB` has exactly the fields `__paths`, `__items`, `__completed`; `__paths` and
+    `__items` are written by the same methods (so `__paths` is a function of `__items`: `Table.items`); only `__setitem__`,
+    `on_complete`, `unload` and `import_json` write them; `_order_keys_recursive` changes nothing but its two out-parameters; the
+    serializer has its two injected collaborators and no method that writes a field or changes an argument in place. -/
+theorem state_is_modelled :
+    dbFields = [['_', '_', 'p', 'a', 't', 'h', 's'], ['_', '_', 'i', 't', 'e', 'm', 's'], ['_', '_', 'c', 'o', 'm', 'p', 'l', 'e', 't', 'e', 'd']] ∧
+    (dbMutators.filter (fun m => m.2.contains ['_', '_', 'p', 'a', 't', 'h', 's'])).map Prod.fst =
+      (dbMutators.filter (fun m => m.2.contains ['_', '_', 'i', 't', 'e', 'm', 's'])).map Prod.fst ∧
+    dbMutators.map Prod.fst = [['_', '_', 's', 'e', 't', 'i', 't', 'e', 'm', '_', '_'], ['o', 'n', '_', 'c', 'o', 'm', 'p', 'l', 'e', 't', 'e'],
+      ['u', 'n', 'l', 'o', 'a', 'd'], ['i', 'm', 'p', 'o', 'r', 't', '_', 'j', 's', 'o', 'n'],
+      ['_', 'o', 'r', 'd', 'e', 'r', '_', 'k', 'e', 'y', 's', '_', 'r', 'e', 'c', 'u', 'r', 's', 'i', 'v', 'e']] ∧
+    dictGet? dbMutators ['_', 'o', 'r', 'd', 'e', 'r', '_', 'k', 'e', 'y', 's', '_', 'r', 'e', 'c', 'u', 'r', 's', 'i', 'v', 'e'] =
+      some [['a', 'r', 'g', ':', 'r', 'e', 's', 'o', 'l', 'v', 'i', 'n', 'g'], ['a', 'r', 'g', ':', 'o', 'r', 'd', 'e', 'r', 's']] ∧
+    dictGet? dbMutators ['i', 'm', 'p', 'o', 'r', 't', '_', 'j', 's', 'o', 'n'] = some [['s', 'e', 'l', 'f', '[', ']']] ∧
+    serializerFields = [['_', 'e', 'n', 't', 'r', 'y', 'p', 'o', 'i', 'n', 't', 's'], ['_', 't', 'r', 'a', 'i', 't', 's']] ∧
+    serializerMutators = [] := by
+  decide +kernel
+
+
+/-! ### index paths: the exporter writes canonical decimals only -/
+
+/-- every key of an exported `attrs` dict is a non-empty path whose dotted spelling consists of canonical decimals (`str(index)`: ASCII
+    digits, no sign, no leading zero) and decodes to the path -/
+theorem export_paths_canonical (f : Forest) : ∀ pk ∈ expand f,
+    pk.1 ≠ [] ∧ decPath (encPath pk.1) = some pk.1 ∧ ∀ comp ∈ Str.splitOn '.' (encPath pk.1), isCanonicalDec comp = true := by
+  intro pk hpk
+  rw [SymbolJson.expand_eq_flatten] at hpk
+  have hne := (flatList_heads 0 f pk hpk).1
+  exact ⟨hne, decPath_encPath pk.1 hne, encPath_components pk.1 hne⟩
+
+/-- on canonical decimals `int` and `str` are inverse: the domain on which the importer is modelled is exactly what the exporter writes
+    (`'01'`, `'+1'`, `' 1'`, `'1_0'`, which `int()` also accepts, occur in hand-written JSON only) -/
+theorem canonical_roundtrip (s : Str) (h : isCanonicalDec s = true) : ∃ n, Str.decToNat? s = some n ∧ Str.natToDec n = s :=
+  SymbolJson.canonical_roundtrip s h
+
+example : isCanonicalDec ['1', '0'] = true ∧ isCanonicalDec ['0'] = true ∧ isCanonicalDec ['0', '1'] = false ∧
+    isCanonicalDec ['+', '1'] = false ∧ isCanonicalDec [] = false ∧
+    (expand [.mk ['t'] [.mk ['i'] [], .mk ['i'] []]]).map (fun pk => encPath pk.1) = [['0'], ['0', '.', '0'], ['0', '.', '1']] := by
   decide +kernel
 
 end Tranp.C14
